@@ -36,7 +36,11 @@ pub(crate) fn fragment_event(event: &'static str, index: u32) {
 // `[1, encoded byte offset, encoded byte length, width, width offset, output
 // byte offset]` for a call, and `[2, encoded byte offset, encoded byte length,
 // output byte offset, output byte length, native bytes per pixel, channel
-// conversion needed]` for a call of a `ProcessPixelsFn` (uncompressed formats).
+// conversion needed]` for a call of a `ProcessPixelsFn` (uncompressed formats),
+// and `[3, plane-1 byte offset, plane-1 byte length, plane-2 byte offset, plane-2
+// byte length, range offset, range width, range y, output byte offset, native
+// bytes per pixel, channel conversion needed]` for a call of a
+// `ProcessBiPlanarFn`.
 
 thread_local! {
     static BLOCK_TRACE: std::cell::RefCell<Option<Vec<Vec<usize>>>> = const { std::cell::RefCell::new(None) };
